@@ -100,7 +100,7 @@ Definition write_chunk (la_on_transfer : bool) (now : N) (p : pstate) (bs : list
   end.
 
 (* the await of pipe p completed at [now]: run the synchronous code up to the next await *)
-Definition apply_complete (la_on_transfer : bool) (now : N) (p : pstate) : pstate :=
+Definition apply_complete0 (la_on_transfer : bool) (now : N) (p : pstate) : pstate :=
   match ph p with
   | PRun =>
     match pending p with
@@ -151,6 +151,15 @@ Definition apply_complete (la_on_transfer : bool) (now : N) (p : pstate) : pstat
   | _ => p
   end.
 
+Definition with_start (t : N) (p : pstate) : pstate :=
+  {| env := env p; pending := pending p; la := la p; iter_start := t; ph := ph p;
+     read_log := read_log p; delivered := delivered p; consumed := consumed p; metric := metric p;
+     eof_calls := eof_calls p; flush_done := flush_done p |}.
+
+(* whatever follows starts at [now] (the start instant is irrelevant for a failed / finished pipe) *)
+Definition apply_complete (la_on_transfer : bool) (now : N) (p : pstate) : pstate :=
+  with_start now (apply_complete0 la_on_transfer now p).
+
 (* a new SimplexPipe::exchange call: the previous in-flight await is dropped (no state is lost:
    pending_chunk is only taken after wait_writable returned) *)
 Definition restart (la_on_transfer : bool) (now : N) (p : pstate) : pstate :=
@@ -172,47 +181,48 @@ Definition earlier (a b : option (N * evkind)) : bool :=   (* is a's event not l
   | None, _ => false
   end.
 
+Inductive step_out := Done (r : dresult) (s : dstate) | Next (s : dstate).
+
+(* one event of the duplex pipe *)
+Definition dstep (la_on_transfer : bool) (T : N) (s : dstate) : step_out :=
+  let el := match mode s with OnlyRight => None | _ => next_event T (pl s) end in
+  let er := match mode s with OnlyLeft => None | _ => next_event T (pr s) end in
+  let left_first := earlier el er in
+  match (if left_first then el else er) with
+  | None => Done DHang s
+  | Some (t, Complete) =>
+    let p' := apply_complete la_on_transfer t (if left_first then pl s else pr s) in
+    let s' := if left_first then {| now := t; pl := p'; pr := pr s; mode := mode s |}
+              else {| now := t; pl := pl s; pr := p'; mode := mode s |} in
+    match ph p' with
+    | PFailed => Done DError s'
+    | PFinished =>
+      match mode s with
+      | Both => Next {| now := t; pl := pl s'; pr := pr s';
+                        mode := if left_first then OnlyRight else OnlyLeft |}
+      | _ => Done DOk s'
+      end
+    | _ => Next s'
+    end
+  | Some (t, Timeout) =>
+    match mode s with
+    | Both =>
+      let deadline := t - T in
+      if (la (pl s) <? deadline) && (la (pr s) <? deadline)
+      then Done DTimedOut {| now := t; pl := pl s; pr := pr s; mode := Both |}
+      else Next {| now := t; pl := restart la_on_transfer t (pl s);
+                   pr := restart la_on_transfer t (pr s); mode := Both |}
+    | _ => Done DTimedOut {| now := t; pl := pl s; pr := pr s; mode := mode s |}
+    end
+  end.
+
 Fixpoint drun (fuel : nat) (la_on_transfer : bool) (T : N) (s : dstate) : dresult * dstate :=
   match fuel with
   | O => (DFuel, s)
-  | S f =>
-    let el := match mode s with OnlyRight => None | _ => next_event T (pl s) end in
-    let er := match mode s with OnlyLeft => None | _ => next_event T (pr s) end in
-    match el, er with
-    | None, None => (DHang, s)
-    | _, _ =>
-      let left_first := earlier el er in
-      let ev := if left_first then el else er in
-      match ev with
-      | None => (DHang, s)
-      | Some (t, Complete) =>
-        let p' := apply_complete la_on_transfer t (if left_first then pl s else pr s) in
-        let s' := if left_first then {| now := t; pl := p'; pr := pr s; mode := mode s |}
-                  else {| now := t; pl := pl s; pr := p'; mode := mode s |} in
-        match ph p' with
-        | PFailed => (DError, s')
-        | PFinished =>
-          match mode s with
-          | Both => drun f la_on_transfer T
-                         {| now := t; pl := pl s'; pr := pr s';
-                            mode := if left_first then OnlyRight else OnlyLeft |}
-          | _ => (DOk, s')
-          end
-        | _ => drun f la_on_transfer T s'
-        end
-      | Some (t, Timeout) =>
-        match mode s with
-        | Both =>
-          let deadline := t - T in
-          if (la (pl s) <? deadline) && (la (pr s) <? deadline)
-          then (DTimedOut, {| now := t; pl := pl s; pr := pr s; mode := Both |})
-          else drun f la_on_transfer T
-                    {| now := t; pl := restart la_on_transfer t (pl s);
-                       pr := restart la_on_transfer t (pr s); mode := Both |}
-        | _ => (DTimedOut, {| now := t; pl := pl s; pr := pr s; mode := mode s |})
-        end
-      end
-    end
+  | S f => match dstep la_on_transfer T s with
+           | Done r s' => (r, s')
+           | Next s' => drun f la_on_transfer T s'
+           end
   end.
 
 Definition env_size (e : penv) : nat :=
